@@ -18,6 +18,10 @@ R6  slot 0 of 1-based heap arrays: every global array allocated with a non-zeroi
 R7  union member discipline: for every union whose members differ in size (today: union dfaacc_union), a load through a
     member wider than another stored member is under the option tests common to all stores of that member (derived from
     the IR: dfaacc_set <-> reject), or follows a store of it to the same element.
+R8  a new element initialises its whole family: for every capacity family of C16.R8 the element counter K is the global
+    compared with the capacity in the growth test; each function that does K = K + 1 stores G[new K] for every array G of
+    the family on every returning path (on the paths of the mode in which G is read, when all reads of G share option
+    tests), directly, through a local copy of K, or through a direct callee; arrays filled later are reasoned exemptions.
 R5  the output location does not influence the content: env.use_stdout steers only the freopen decision in
     check_options() and one letter of the -v statistics on stderr.
 """
@@ -986,6 +990,182 @@ def r7(prog, rep, anchors=True):
     rep.note('C18.R7 union members and the modes derived from their stores: ' + ' | '.join(table))
     return n, table
 
+# ================================================================ R8  a new element initialises its whole family
+
+# Arrays of a capacity family that a creator need not initialise, each justified by reading the code:  array -> reason
+def _completer_always_stores(fname, G, K):
+    """precondition of an exemption: function fname stores G[K] on every returning path"""
+    def pre(prog):
+        f = prog.fn(fname)
+        if f is None: return False
+        res = Resolver(f); arrays = heap_arrays(prog)
+        st = [x for x in f.ins if x.op == 'store' and (heap_elem(f, x.ops[1], res, arrays) or (None,))[0] == G
+              and lin(f, heap_elem(f, x.ops[1], res, arrays)[1], res) == {('load', ('global', K)): 1}]
+        return bool(st) and not any(y.op == 'ret' for y in prog.cfg(f).reach_from_block(f.entry, avoid=st))
+    return pre
+
+R8_EXEMPT = {
+    'chk': ('zero-filled after every (re)allocation (C18.R4(c)), so an element nobody stored reads as 0 = unused', None),
+    'nxt': ('every load of nxt[e] is preceded by a chk[e] != 0 edge or a store to nxt[e] (C18.R4(a))', None),
+    'base': ('filled per state by the table pass of ntod(): every DFA state taken from the todo queue goes to place_state() (-CF) or to bldtbl()/stack1() -> mkentry()/mk1tbl() '
+             '(compressed), which store base[statenum] on every returning path; -Cf never reads base[]; the readers run in make_tables(), after ntod(); slots 0 and jamstate: C18.R6', None),
+    'def': ('as base[]: mkentry()/mk1tbl() store def[statenum] next to base[statenum] for every state in compressed mode, the only mode that reads def[]; jam slot: C18.R6', None),
+    'nultrans': ('optional array that exists only under -Cf; ntod() stores nultrans[ds] for every state it processes (if (nultrans) nultrans[ds] = state[NUL_ec]) and the only reader, '
+                 'make_tables(), runs afterwards over 1..lastdfa', None),
+    'rule_type': ('assigned by finish_rule() (both arms; checked: it stores rule_type[num_rules] on every returning path), which the grammar runs for the same rule number before the next '
+                  'new_rule() (EOF rules give the number back with --num_rules) and before ntod()/gentabs() read it', _completer_always_stores('finish_rule', 'rule_type', 'num_rules')),
+}
+
+def element_counters(prog, fam):
+    """{capacity C: {counter global K}}: K is compared with C by a growth test (K [+k] >= C whose true edge reaches a store
+    that increases C, or a call to a function that does) - `if (++lastdfa >= current_max_dfas) increase_max_dfas ();`"""
+    import c16
+    out = {}
+    for C in fam:
+        gs = c16.grow_stores(prog, C)
+        if not gs: continue
+        growers = {g.fn.name for g in gs}
+        CA = ('load', ('global', C))
+        for f in fns(prog):
+            res = Resolver(f); cfg = None
+            for b in f.blocks:
+                br = b.ins[-1]
+                be = branch_edges(f, br) if br.op == 'br' else None
+                if be is None: continue
+                ic, tl, fl = be
+                l0 = lin(f, ic.ops[0], res); l1 = lin(f, ic.ops[1], res)
+                if l0 is None or l1 is None: continue
+                # orient as  K + k  >=|>  C
+                if l1 == {CA: 1} and ic.pred in ('sge', 'sgt', 'uge', 'ugt'): kside, lab = l0, tl
+                elif l0 == {CA: 1} and ic.pred in ('sle', 'slt', 'ule', 'ult'): kside, lab = l1, tl
+                elif l1 == {CA: 1} and ic.pred in ('slt', 'sle', 'ult', 'ule'): kside, lab = l0, fl
+                elif l0 == {CA: 1} and ic.pred in ('sgt', 'sge', 'ugt', 'uge'): kside, lab = l1, fl
+                else: continue
+                atoms = [a for a in kside if a != 1]
+                if len(atoms) != 1 or kside[atoms[0]] != 1 or atoms[0][0] != 'load' or atoms[0][1][0] != 'global': continue
+                # the growth must be decided by this very test: a block holding the grow store / the call to the grower
+                # is directly control dependent on the edge
+                cfg = cfg or prog.cfg(f, cut=False)
+                for bb in f.blocks:
+                    if not any((x in gs) or (x.op == 'call' and x.callee in growers) for x in bb.ins): continue
+                    if any(b2 is br and t2 is f.bmap[lab] for b2, t2 in cfg.control_deps(bb)):
+                        out.setdefault(C, set()).add(atoms[0][1][1]); break
+    return out
+
+def creators(prog, K):
+    """[(function, increment store)] for stores K = K + 1"""
+    KA = ('load', ('global', K)); out = []
+    for f in fns(prog):
+        res = Resolver(f)
+        for x in f.ins:
+            if x.op == 'store' and res.loc(x.ops[1]) == ('global', K) and lin(f, x.ops[0], res) == {KA: 1, 1: 1}: out.append((f, x))
+    return out
+
+def _lin_after(f, v, res, S, K, cfg):
+    """linear form of index v with single-assignment locals replaced by their value, provided the local is assigned after
+    the increment S with K unchanged in between (int r = num_rules; ... G[r] = ...)"""
+    li = lin(f, v, res)
+    if li is None: return None
+    out = {}
+    for a, c in li.items():
+        sub = None
+        if a != 1 and a[0] == 'load' and a[1][0] == 'local' and not a[1][1].endswith('.addr'):
+            st = [x for x in f.ins if x.op == 'store' and flow._freeze(res.loc(x.ops[1])) == a[1]]
+            if len(st) == 1 and cfg.ins_dominates(S, st[0]) and not any(y.op == 'store' and res.loc(y.ops[1]) == ('global', K) and st[0] in cfg.reach(y) for y in cfg.reach(S, avoid=[st[0]])):
+                sub = lin(f, st[0].ops[0], res)
+        for k_, v_ in (sub.items() if sub is not None else [(a, 1)]):
+            out[k_] = out.get(k_, 0) + c * v_
+    return {k_: v_ for k_, v_ in out.items() if v_}
+
+def element_init_stores(prog, f, S, K, G, arrays, depth=0):
+    """instructions in f that initialise G[new value of K] for the increment S: a store to G[K] after S (K unchanged in
+    between), a store to G[K + 1] before S, or a call to a direct callee that always stores G[p] with p = that index"""
+    res = Resolver(f); cfg = prog.cfg(f); KA = ('load', ('global', K))
+    kstores = [y for y in f.ins if y.op == 'store' and res.loc(y.ops[1]) == ('global', K)]
+    def k_unchanged(a, b):
+        return not any(y is not a and y is not b and y in cfg.reach(a, avoid=[b]) and b in cfg.reach(y) for y in kstores)
+    out = []
+    for x in f.ins:
+        if x.op == 'store':
+            ea = heap_elem(f, x.ops[1], res, arrays)
+            if ea is None or ea[0] != G: continue
+            if cfg.ins_dominates(S, x) or x in cfg.reach(S):
+                if _lin_after(f, ea[1], res, S, K, cfg) == {KA: 1} and k_unchanged(S, x): out.append(x)
+            elif cfg.ins_dominates(x, S):
+                if lin(f, ea[1], res) == {KA: 1, 1: 1} and k_unchanged(x, S): out.append(x)
+        elif x.op == 'call' and isinstance(x.callee, str) and depth == 0 and x in cfg.reach(S):
+            g = prog.fn(x.callee)
+            if g is None or not g.blocks or g is f: continue
+            for pi, a in enumerate(x.ops):
+                if _lin_after(f, a, res, S, K, cfg) != {KA: 1} or not k_unchanged(S, x) or pi >= len(g.params) or g.params[pi][1] is None: continue
+                gres = Resolver(g); gcfg = prog.cfg(g); slot = ('local', g.params[pi][1] + '.addr')
+                if len([y for y in g.ins if y.op == 'store' and gres.loc(y.ops[1]) == slot]) != 1: continue
+                inner = [y for y in g.ins if y.op == 'store' and (heap_elem(g, y.ops[1], gres, arrays) or (None,))[0] == G
+                         and lin(g, heap_elem(g, y.ops[1], gres, arrays)[1], gres) == {('load', slot): 1}]
+                if inner and not any(y.op == 'ret' for y in gcfg.reach_from_block(g.entry, avoid=inner)): out.append(x)
+    return out
+
+def r8(prog, rep, exempt=R8_EXEMPT, anchors=True):
+    import c16
+    fam = c16.capacity_families(prog)
+    arrays = heap_arrays(prog)
+    exempt = dict(exempt)
+    fam = {C: gs for C, gs in fam.items() if not any(c_ == C for c_, _g in c16.R8_EXCEPT)}       # lastsc is a count, not a capacity (C16.R8)
+    counters = element_counters(prog, fam)
+    n = 0; table = []
+    exempt = {g: r for g, (r, pre) in exempt.items() if pre is None or pre(prog)}
+    # option tests common to every load of an array element: a creator only has to initialise on paths of that mode
+    read_mode = {}
+    for f in fns(prog):
+        res = Resolver(f)
+        for x in f.ins:
+            if x.op != 'load': continue
+            ea = heap_elem(f, x.ops[0], res, arrays)
+            if ea is None: continue
+            fl = flags_with_callers(prog, f, x)[0]
+            read_mode[ea[0]] = fl if ea[0] not in read_mode else (read_mode[ea[0]] & fl)
+    for C in sorted(counters):
+        for K in sorted(counters[C]):
+            cr = creators(prog, K)
+            if not cr: continue
+            ex = sorted(g for g in fam[C] if g in exempt)
+            table.append('%s/%s: created in %s; arrays %s%s' % (K, C, ', '.join(sorted({'%s@%s' % (f.name, S.line) for f, S in cr})),
+                         ', '.join(sorted(g for g in fam[C] if g not in exempt)) or '-', ('; exempt: ' + ', '.join(ex)) if ex else ''))
+            for f, S in cr:
+                cfg = prog.cfg(f)
+                for G in sorted(fam[C]):
+                    n += 1
+                    kk = key('C18.R8', f, '%s[%s]' % (G, K))
+                    if G in exempt:
+                        rep.ok('C18.R8', '%s: ++%s@%s, %s exempt: %s' % (f.name, K, S.line, G, exempt[G])); continue
+                    if G not in arrays:
+                        rep.ok('C18.R8', '%s: ++%s@%s, %s is not allocated by a non-zeroing allocator' % (f.name, K, S.line, G)); continue
+                    inits = element_init_stores(prog, f, S, K, G, arrays)
+                    before = [x for x in inits if cfg.ins_dominates(x, S) and x is not S and not cfg.ins_dominates(S, x)]
+                    after = [x for x in inits if x not in before]
+                    mode = read_mode.get(G, set())
+                    res = Resolver(f)
+                    def filt(b, t, mode=mode, f=f, res=res):
+                        br = b.ins[-1]
+                        te = truth_edges(f, br) if br.op == 'br' and len(br.targets) == 2 else None
+                        if te is None or te[1] == te[2]: return True
+                        d = f.def_of(flow.int_origin(f, flow.strip_casts(f, te[0])))
+                        c_ = cls(prog, res.loc(d.ops[0])) if d is not None and d.op == 'load' else None
+                        for (mc, pol) in mode:
+                            if mc == c_: return t.name == (te[1] if pol else te[2])
+                        return True
+                    leak = [y for y in cfg.reach(S, avoid=after, edge_filter=filt) if y.op == 'ret'] if not before else []
+                    if before or (after and not leak):
+                        x = (before or after)[0]
+                        rep.ok('C18.R8', '%s: ++%s@%s -> %s[%s] initialised@%s%s%s' % (f.name, K, S.line, G, K, x.line, ' (in %s())' % x.callee if x.op == 'call' else '',
+                               (' on every path where %s (the only mode in which %s[] is read)' % (flags_str(mode), G)) if mode and not before else ''))
+                    else:
+                        rep.fail('C18.R8', kk, where(S), '%s() creates element %s of the %s family but %s %s[%s]; %s is allocated uninitialised, so a later read of the new element '
+                                 'sees whatever the heap held' % (f.name, K, C, 'can return without storing' if after else 'never stores', G, K, G),
+                                 replay_input='run flex under different MALLOC_PERTURB_ values and compare output / warnings')
+    rep.note('C18.R8 element counters, creators and arrays derived from the IR: ' + ' | '.join(table))
+    return n, table
+
 # ================================================================ controls / driver
 
 def controls(ctx):
@@ -1000,6 +1180,8 @@ def controls(ctx):
     expect_control(ctx, 'C18.R4', c, ['bad_reader:nxt-load', 'bad_reader_changed_index:nxt-load', 'bad_marker:chk-store', 'bad_expand:chk-alloc'], must_hold=4)
     c = Collect(); r5(p, c, readers={})
     expect_control(ctx, 'C18.R5', c, ['content_depends:effect-use_stdout'], must_hold=1)
+    c = Collect(); r8(p, c, exempt={}, anchors=False)
+    expect_control(ctx, 'C18.R8', c, ['new_item:item_c[n_items]', 'new_item:item_d[n_items]'], must_hold=3)
     c = Collect(); r7(p, c, anchors=False)
     expect_control(ctx, 'C18.R7', c, ['bad_union_reader:acc_union'], must_hold=2)
     c = Collect(); r6(p, c, covered={}, anchors=False)
@@ -1014,6 +1196,8 @@ def run(ctx):
     controls(ctx)
     c = {}
     c['R1'] = r1(prog, rep); c['R2'] = r2(prog, rep); c['R3'] = r3(prog, rep); c['R4'] = r4(prog, rep); c['R5'] = r5(prog, rep) + r5b(prog, rep); c['R6'] = r6(prog, rep); c['R7'], r7table = r7(prog, rep)
+    c['R8'], r8table = r8(prog, rep)
+    rep.setcount('element_counter_families', len(r8table))
     rep.setcount('unions_with_members_of_different_size', len(r7table))
     rep.setcount('translation_units', len(prog.modules)); rep.setcount('functions_analysed', len(fns(prog)))
     for k_, v in c.items(): rep.setcount('instances_' + k_, v)
@@ -1022,6 +1206,7 @@ def run(ctx):
     rep.floor('C18.R3', 10, '3 bucket arrays: 7 uses in sym.c + 4 table-parameter uses in addsym/findsym')
     rep.floor('C18.R4', 24, '11 nxt[] loads in gentabs/genctbl/mkctbl, 16 chk[] stores, 2 chk allocations')
     rep.floor('C18.R5', 2, 'env.use_stdout is read in check_options() and flexend()')
+    rep.floor('C18.R8', 28, '(creator, array) obligations today: mkstate 9, scinstal 5, cclinit 4, new_rule 4, snstods 8, sf_push 1, plus the exempted chk/nxt cursors')
     rep.floor('C18.R7', 3, 'loads of dfaacc_union.dfaacc_set in check_for_backing_up, snstods, gentabs')
     rep.floor('C18.R6', 12, 'slot-0 readers today: base x3, dfaacc x2, chk x2, nxt x2; jam-slot readers: base x3 (genctbl, mkctbl, gentabs), def x1 (gentabs)')
     rep.undecided += ['independence of the output from the contents of fresh heap memory in general (only nxt[]/chk[] are covered)',
